@@ -195,8 +195,13 @@ def run(ctx, R, tier):
             "a finished worker can be neither idle nor told to stop: the thread waits forever and is lost to the pool")
 
     def below_min(atom, pol):
-        if isinstance(atom, ast.Compare) and len(atom.ops) == 1 and unparse(atom.left) == "len(self.idle)" and unparse(atom.comparators[0]).endswith("THREADPOOL_SIZE_MIN"):
-            return (isinstance(atom.ops[0], ast.GtE) and pol is False) or (isinstance(atom.ops[0], ast.Lt) and pol is True)
+        # `len(idle) >= MIN` is read as `MIN <= len(idle)` (canonical ordering)
+        if isinstance(atom, ast.Compare) and len(atom.ops) == 1:
+            lf, rt = unparse(atom.left), unparse(atom.comparators[0])
+            if isinstance(atom.ops[0], ast.LtE) and lf.endswith("THREADPOOL_SIZE_MIN") and rt == "len(self.idle)":
+                return pol is False
+            if isinstance(atom.ops[0], ast.Lt) and lf == "len(self.idle)" and rt.endswith("THREADPOOL_SIZE_MIN"):
+                return pol is True
         return False
 
     def open_(atom, pol):
